@@ -45,7 +45,9 @@ func failoverPolicy(typeName string) pw.Policy {
 			return sig != nil && sig.Recv() == nil && !fn.Exported()
 		},
 		SpawnDeclared: func(fn *types.Func) bool { return sameRecvNamed(fn, typeName) },
-		Pure:          basePure,
+		// TTL(ctx) is not a function of ctx alone inside Get: the builder may lower the cell in between (WithTTL(ctx, ttl, true)),
+		// so two reads of it are two values
+		Pure: func(fn *types.Func) bool { return pw.FuncName(fn) != "cache.TTL" && basePure(fn) },
 		Role:          BaseRole,
 		MaxDepth:      4,
 		Consistent: func(f *pw.FactView) bool {
